@@ -128,7 +128,8 @@ theorem drop_take_eq {α : Type} (l : List α) (a b : Nat) : (l.take (a + b)).dr
     state the automaton reaches on them — the loop ends with the result of scanning the rest of
     the *whole* remaining input. -/
 theorem scan_spec {σ : Type} (D : DFA σ) (rd : Reader) (hrd : rd.OK) :
-    ∀ (fuel : Nat) (st : BState) (p : Nat) (s : σ) (la : Last),
+    ∀ (fuel : Nat) (st : BState) (p : Nat) (s : σ) (la : Last) (rem : List UInt8),
+      rem = st.buf.drop (st.tok + st.pre + p) →
       Inv st → st.tok + st.pre + p ≤ st.buf.length →
       prevState D st.atBol (((unread st).drop st.pre).take p) = some s →
       LaLe la p →
@@ -136,9 +137,9 @@ theorem scan_spec {σ : Type} (D : DFA σ) (rd : Reader) (hrd : rd.OK) :
       2 * ((unread st).length - st.pre - p) + (if st.tok + st.pre + p < st.buf.length then 0 else 1) + 1 ≤ fuel →
       ScanPost D (unread st) st.atBol st.pre (tokensOf st.out.toList)
         (absScan D s la p (((unread st).drop st.pre).drop p))
-        (scan D rd fuel st p s la)
-  | 0, st, p, s, la, _, _, _, _, _, hf => by omega
-  | fuel + 1, st, p, s, la, hi, hp, hs, hla, hp0, hf => by
+        (scan D rd fuel st p s la rem)
+  | 0, st, p, s, la, rem, _, _, _, _, _, _, hf => by omega
+  | fuel + 1, st, p, s, la, rem, hrem, hi, hp, hs, hla, hp0, hf => by
     have hU : (unread st).length = st.buf.length - st.tok + st.src.length := by simp [unread]
     simp only [scan]
     by_cases hd : D.dead s
@@ -149,13 +150,21 @@ theorem scan_spec {σ : Type} (D : DFA σ) (rd : Reader) (hrd : rd.OK) :
       | nil => simp [absScan]
       | cons c rest => simp [absScan, hd]
     · simp only [hd, Bool.false_eq_true, if_false]
-      cases hc : st.buf[st.tok + st.pre + p]? with
-      | some c =>
+      cases hrm : rem with
+      | cons c rem' =>
         -- a character of the buffer
+        have hdr0 : st.buf.drop (st.tok + st.pre + p) = c :: rem' := by rw [← hrem, hrm]
         have hlt : st.tok + st.pre + p < st.buf.length := by
           rcases Nat.lt_or_ge (st.tok + st.pre + p) st.buf.length with h | h
           · exact h
-          · rw [List.getElem?_eq_none h] at hc; cases hc
+          · rw [List.drop_eq_nil_of_le h] at hdr0; cases hdr0
+        have hc : st.buf[st.tok + st.pre + p]? = some c := by
+          have := List.getElem?_drop (xs := st.buf) (i := st.tok + st.pre + p) (j := 0)
+          rw [hdr0] at this; simpa using this.symm
+        have hrem' : rem' = st.buf.drop (st.tok + st.pre + (p + 1)) := by
+          have : st.buf.drop (st.tok + st.pre + (p + 1)) = (st.buf.drop (st.tok + st.pre + p)).drop 1 := by
+            rw [List.drop_drop]; congr 1
+          rw [this, hdr0]; rfl
         have hUc : ((unread st).drop st.pre)[p]? = some c := by
           simp only [unread]
           rw [List.getElem?_drop, List.getElem?_append_left (by simp; omega), List.getElem?_drop]
@@ -178,17 +187,16 @@ theorem scan_spec {σ : Type} (D : DFA σ) (rd : Reader) (hrd : rd.OK) :
             · exact h
             · rw [List.getElem?_eq_none h] at hUc; cases hUc
           have hlen' : st.pre + p < (unread st).length := by simp at hlen; omega
-          have := scan_spec D rd hrd fuel st (p + 1) s' (upd D la (p + 1) s') hi (by omega) hs'
+          have := scan_spec D rd hrd fuel st (p + 1) s' (upd D la (p + 1) s') rem' hrem' hi (by omega) hs'
             (upd_LaLe D la p s' hla) (by omega) (by
               simp only [hlt, if_true] at hf
               split <;> omega)
           exact this
-      | none =>
+      | nil =>
         -- the end of the buffer
         have hge : st.buf.length ≤ st.tok + st.pre + p := by
-          rcases Nat.lt_or_ge (st.tok + st.pre + p) st.buf.length with h | h
-          · rw [List.getElem?_eq_getElem h] at hc; cases hc
-          · exact h
+          have : st.buf.drop (st.tok + st.pre + p) = [] := by rw [← hrem, hrm]
+          simpa using this
         have hpe : st.tok + (st.pre + p) = st.buf.length := by omega
         obtain ⟨r1, r2, r3, r4, r5, r6, r7, r8, r9, r10⟩ := refill_spec rd hrd st (st.pre + p) hi hpe (by omega)
         simp only
@@ -225,7 +233,7 @@ theorem scan_spec {σ : Type} (D : DFA σ) (rd : Reader) (hrd : rd.OK) :
             rw [hmoved]; exact hs
           rw [hprev]
           simp only
-          have := scan_spec D rd hrd fuel st' p s la r6 (by omega) (by rw [r1, r4, r10]; exact hs) hla hp0 (by
+          have := scan_spec D rd hrd fuel st' p s la (st'.buf.drop (st.pre + p)) (by rw [r2, r10]; simp) r6 (by omega) (by rw [r1, r4, r10]; exact hs) hla hp0 (by
             rw [r1, r10]
             have h1 : ¬ st.tok + st.pre + p < st.buf.length := by omega
             simp only [h1, if_false] at hf
@@ -267,12 +275,12 @@ theorem run_tokens {σ : Type} (D : DFA σ) (rd : Reader) (hrd : rd.OK) (act : S
   | 0, k, st, hi => by simp [run, absLex, hi]
   | fuel + 1, k, st, hi => by
     have hU : (unread st).length = st.buf.length - st.tok + st.src.length := by simp [unread]
-    have hsp := scan_spec D rd hrd (tokFuel st) st 0 (D.start st.atBol) none hi (by have := hi.tok_le; omega)
+    have hsp := scan_spec D rd hrd (tokFuel st) st 0 (D.start st.atBol) none (st.buf.drop (st.tok + st.pre)) rfl hi (by have := hi.tok_le; omega)
       (by simp [prevState_nil]) (by intro l r h; cases h) (fun _ => rfl)
       (by simp only [tokFuel]; split <;> omega)
     simp only [List.drop_zero] at hsp
     simp only [run]
-    cases hr : scan D rd (tokFuel st) st 0 (D.start st.atBol) none with
+    cases hr : scan D rd (tokFuel st) st 0 (D.start st.atBol) none (st.buf.drop (st.tok + st.pre)) with
     | fuel => rw [hr] at hsp; exact absurd hsp.ok (by simp)
     | eof st' =>
       rw [hr] at hsp
